@@ -7,6 +7,9 @@
  'clauses': 'observers, for every capacity N >= 1 and every SV state: size() == m_size <= N, room() == N - size() (no wrap-around), data()/begin() point at slot 0 of '
             'the storage, end() == begin() + size() (inside or one past the storage), operator[](i) for i < size() / front() / back() (size() >= 1) point at the LIVE '
             'element i / 0 / size()-1 inside the storage; none of them writes anything (container and every slot unchanged)',
+ 'native_cxx_probes': [{'file': 'units/C14/native/static_vector_model_probe.cpp', 'run': True,
+                        'what': 'real igris::static_vector<T,4> (not the extraction) against a truncated std::vector model with a lifetime-tracking element type',
+                        'bound': 'capacity 4; one operation (push_back/emplace_back incl. full, erase of every range, resize, clear, copy/move construction and assignment between all lengths, range and initializer-list construction of 0..6 elements) from every start state of 0..4 elements: 199 state x operation pairs'}],
  'witness': {'unwind': 5},
  'assumptions': ['SV(v) on entry (type invariant), instantiated at the ghost slot and the slot accessed', 'operator[] index < size(), front()/back() on a non-empty vector (as for std::vector)',
                  'T = ELEM, N = CAP arbitrary in [1, 2^36]'],
